@@ -168,7 +168,8 @@ IsEscape(v) == IsX(v) /\ (v.n = 80000 \/ (v.n >= 31000 /\ v.n < 32000))
 NoStackLimit(P) == "maxstack" \notin DOMAIN P
 HasDedup(P, t) == "dedup" \in DOMAIN P.tasks[t]
 NoDedup(P) == \A t \in 1..Len(P.tasks) : ~HasDedup(P, t)
-DedupKey(P, t) == <<P.tasks[t].dedup.fn, P.tasks[t].dedup.key>>     \* (function, normalised arguments); one thread
+\* (function, normalised arguments, binding: plain function / method of instance 1 or 2 / static method); one thread
+DedupKey(P, t) == <<P.tasks[t].dedup.fn, P.tasks[t].dedup.key, P.tasks[t].dedup.bind>>
 SeqDomain(P) == NoFaultyCtx(P) /\ ~HasCtxType(P, "nonasync") /\ NoSpawnKind(P) /\ NoStackLimit(P) /\ NoDedup(P)   \* where sequential evaluation is the oracle
 
 (* every task is named at most once (as T leaf or sync target) in the whole program *)
